@@ -116,13 +116,23 @@ def gen_cases(rng, tier):
 
 
 def search_cases(rng, focus, broken):
-    return gen_cases(rng, "quick")[:3]
+    # a broken rounding kernel: the tie / sign sweep of C13 finds the input
+    from props import C13
+    out = []
+    for c in C13.search_cases(rng, focus, broken)[:600]:
+        c = dict(c)
+        c["delegate"] = "C13"
+        out.append(c)
+    return out + gen_cases(rng, "quick")[:3]
 
 
 def oracle(case, impl):
     if case.get("delegate") == "C12":
         from props import C12
         return [f for f in C12.oracle(case, impl) if f["site"] == "stack:conversion"]
+    if case.get("delegate") == "C13":
+        from props import C13
+        return C13.oracle(case, impl)
     if case.get("delegate") == "C10":
         from props import C10
         return [f for f in C10.oracle(case, impl) if f["site"] == "apply:money"]
